@@ -547,6 +547,43 @@ def explicit_sift(S, x, u, max_imfs, sift_thresh=1e-8):
     return imf
 
 
+def energy_effect_fails():
+    """imf_opts['energy_thresh'] configures a stage whose effect is a STOP VERDICT (the continue flag of get_next_imf), not a value:
+    on a strong fast tone over weak slow ones (energy ratio ~67 dB after the first IMF) a threshold of 40 dB must end the sift after
+    one component, with or without a (never reached) max_imfs, by every delivery route - as the pipeline assembled from
+    get_next_imf does.  returns [(site, detail, input)]"""
+    import emd.sift as S
+    t = np.linspace(0, 1, N)
+    x = np.sin(2 * np.pi * 13 * t) + 0.02 * np.sin(2 * np.pi * 3 * t) + 0.01 * t
+    u = {'imf_opts': {'energy_thresh': 40.0, 'sd_thresh': 0.1}, 'envelope_opts': None, 'extrema_opts': None}
+    fails = []
+    with warnings.catch_warnings():
+        warnings.simplefilter('ignore')
+        want = explicit_sift(S, x, u, 5)
+        for cap in (5, None):
+            cfg = S.get_config('sift')
+            cfg['max_imfs'] = cap
+            cfg['imf_opts/energy_thresh'] = 40.0
+            cfg['imf_opts/sd_thresh'] = 0.1
+            runs = (('keyword', lambda: S.sift(x, max_imfs=cap, imf_opts=dict(u['imf_opts']))),
+                    ('config', lambda: S.sift(x, **cfg)), ('partial', lambda: cfg.get_func()(x)))
+            for route, f in runs:
+                try:
+                    with common.time_limit(60):
+                        got = f()
+                except Exception as e:                                  # noqa
+                    got = None
+                    detail = 'raised %s: %s' % (type(e).__name__, e)
+                else:
+                    detail = '%d component(s)' % np.asarray(got).shape[1]
+                if got is None or np.asarray(got).shape != want.shape or not np.array_equal(got, want):
+                    fails.append(('emd/sift.py:sift', "imf_opts['energy_thresh'] = 40 supplied by the %s route with max_imfs=%s on a signal whose "
+                                  'first IMF leaves a residual about 67 dB down: %s, the pipeline assembled from get_next_imf (which honours the '
+                                  "stage's stop verdict) gives %d" % (route, cap, detail, want.shape[1]),
+                                  dict(energy_effect=True, route=route, max_imfs=cap)))
+    return fails
+
+
 def explicit_mask_sift(S, x, u, max_imfs, mask_freqs, nphases=4, sift_thresh=1e-8):
     """mask_sift (mask_amp 1, ratio_imf, step factor 2) from get_next_imf alone, without pools"""
     gni = _ORIG.get('G') or S.get_next_imf
@@ -1010,9 +1047,13 @@ def run(ctx):
                 'option and never run.  A case is the real call under recording wrappers; it is non-trivial when '
                 'all five stage calls (get_next_imf, interp_envelope upper/lower, get_padded_extrema peaks/troughs) were recorded and, for '
                 'the pooled variants, at least one of them inside a worker process.' % N)
-    ctx.proof(extra=['props/Prop_Tie_Options.v', 'props/Prop_Tie_Parab.v'])  # translation tie: program regenerated from the source + refinement theorems
+    ctx.proof(extra=['props/Prop_Tie_Options.v', 'props/Prop_Tie_Parab.v', 'props/Prop_Tie_Sift.v'])  # translation tie: program regenerated from the source + refinement theorems
     cases, grid = make_cases(ctx)
     ctx.extra['grid'] = grid
+    # the energy threshold's stop verdict must take effect (oracle only)
+    for site, detail, inp in energy_effect_fails()[:1]:
+        ctx.problem('impl-violation', site, detail, input=inp, tags=dict(variant='sift', route=inp['route'], option='energy_thresh'))
+    ctx.hist['energy-threshold-effect-runs'] += 6
     # mixed delivery route of the second-layer sift (oracle only)
     mopts = option_cases(N)
     for site, detail, inp in mixed_route_fails(mopts if not ctx.quick() else mopts[:14])[:1]:
@@ -1105,6 +1146,10 @@ def replay(rec):
     """Re-run the recorded sequence (decoy configurations, configuration style, variant, options, route, nprocesses, signal):
     True iff the same site still loses the option."""
     import tempfile
+    if rec['input'].get('energy_effect'):
+        f = energy_effect_fails()
+        print(f[:1])
+        return bool(f)
     if 'mixed_route' in rec['input']:
         return _replay_mixed(rec['input'])
     if rec['input'].get('check') == 'pad-rounds':
